@@ -37,8 +37,11 @@ for kd in sorted(glob.glob(os.path.join(wt, "out", "*"))):
         if meta.get("demo_dir") and os.path.isdir(os.path.join(wt, meta["demo_dir"].strip("/"))):
             d = meta["demo_dir"].strip("/")
         files.append((f, d))
-    TAGS = "-tags verif" if "-tags verif" in meta.get("demo", "") else ""
-    if "-race" in meta.get("demo", ""):
+    # flags only if they are part of the demonstration's go test command itself (not of a remark such
+    # as "no -race needed" after it)
+    gocmd = " ".join(re.findall(r"go test([^;&|\n(]*)", meta.get("demo", "")))
+    TAGS = "-tags verif" if "-tags verif" in gocmd else ""
+    if "-race" in gocmd:
         TAGS += " -race"
     res = {"property": prop, "seed": k, "summary": meta.get("summary"), "needs": meta.get("needs"), "files": meta.get("files")}
     assert sh("git status --porcelain --untracked-files=no", cwd=wt).stdout.strip() == "", "worktree dirty"
